@@ -35,6 +35,24 @@ def _stubs(spt):
         def length(self, t0=0, t1=1, error=None, min_depth=None):
             return self._f(t1) - self._f(t0)
 
+    class StubQuad(P.QuadraticBezier):
+        def __init__(self, L, a):
+            P.QuadraticBezier.__init__(self, 0j, 1 + 1j, 3 + 0j)
+            self.L, self.a = Fr(L), Fr(a)
+        _f = StubCurve._f
+        length = StubCurve.length
+
+    class StubArc(P.Arc):
+        """an Arc (isinstance) whose length is prescribed; its geometric attributes are decoys: the search in
+        inv_arclength must not depend on them"""
+        def __init__(self, L, a, radius):
+            self.L, self.a = Fr(L), Fr(a)
+            self.start, self.end = 0j, 2 + 0j
+            self.radius, self.rotation, self.large_arc, self.sweep = radius, 0.0, False, True
+            self.center, self.theta, self.delta = 1 + 0j, 180.0, 180.0
+        _f = StubCurve._f
+        length = StubCurve.length
+
     class StubLine(P.Line):
         def __init__(self, L):
             P.Line.__init__(self, 0j, 1 + 0j)
@@ -52,6 +70,7 @@ def _stubs(spt):
 
         def length(self, t0=0, t1=1, error=None, min_depth=None):
             return 0.0 if t1 < self.c else 1.0
+    StubCurve.variants = (StubCurve, StubQuad, StubArc)
     return StubCurve, StubLine, StepCurve
 
 
@@ -99,8 +118,14 @@ def correspond(ctx):
             c.count('line')
         else:
             lines.append('invseg %s %s %s %d %s' % (_fr(L), _fr(a), _fr(s_tol), maxits, _fr(s)))
-            impl.append(_run(spt, StubCurve(L, a), s, s_tol, maxits))
-            c.count('curve maxits=%d' % maxits)
+            cls = r.choice(StubCurve.variants)
+            if cls.__name__ == 'StubArc':
+                rr = r.choice([1.0, 2.5])
+                curve = cls(L, a, complex(rr, rr * r.choice([1.0, 1.0, 1 + 1e-9, 1 + 5e-6, 1.5])))
+            else:
+                curve = cls(L, a)
+            impl.append(_run(spt, curve, s, s_tol, maxits))
+            c.count('%s maxits=%d' % (cls.__name__, maxits))
     c.compare(lines, [m.strip() for m in common.driver(lines)], impl)
     out.append(c)
     # ---- paths (exact; dyadic fractions so that t2T's float product is exact) ---------------
@@ -198,6 +223,12 @@ def sample(ctx, budget=1.0, hint=None, broken=None):
             curve = P.Path(*segs)
         else:
             curve = _rand_seg(spt, r, z0, scale, kind)
+            if kind == 'arc' and r.random() < 0.5:
+                # circular and nearly circular arcs: constant speed holds only for exactly equal radii
+                r0 = r.uniform(0.3, 2) * scale
+                curve = P.Arc(curve.start, complex(r0, r0 * r.choice([1.0, 1 + 1e-9, 1 + 2e-6, 1 + 9e-6, 1 - 5e-6, 1 + 1e-4])),
+                              r.choice([0, 30, -45.5]), r.random() < 0.5, r.random() < 0.5, curve.end)
+                kind = 'arc~circle'
         desc = repr(curve).replace('\n', ' ')
         L = curve.length()
         if not (L > 0) or not math.isfinite(L):
